@@ -102,6 +102,20 @@ func c03Run(j *rt.Job, seed uint64, r *rt.Rec) {
 			d = dilLibKey(s)
 		}
 		var ref *dilref.Key
+		if ki%3 == 1 {
+			// the first calls under this key's public key are refused ones (garbage signature, short sealed message)
+			pk := d.GetPK()
+			var g [dilithium.CryptoBytes]byte
+			copy(g[:], rng.Bytes(dilithium.CryptoBytes))
+			if ki%6 == 1 {
+				g = [dilithium.CryptoBytes]byte{}
+			}
+			if dilithium.Verify([]byte("first"), g, &pk) || dilithium.Open(rng.Bytes(100), &pk) != nil || dilithium.Open(g[:], &pk) != nil {
+				r.Violate("C03/garbage-accepted", "a garbage signature verified", c03Case{"c03", rt.Hex(s[:]), "", 0, 0}, "", "")
+				return
+			}
+			r.Count("keys_whose_first_verification_was_a_refusal", 1)
+		}
 		if ki == 0 {
 			// dense message-length sweep: every length in a window that moves with the batch number,
 			// so that one run covers 0..(20*batches-1) completely
